@@ -58,6 +58,10 @@ pub assume_specification[ u8::is_ascii_whitespace ](b: &u8) -> (r: bool)
     ensures r == (*b == 0x20 || *b == 0x09 || *b == 0x0a || *b == 0x0c || *b == 0x0d);
 
 // ---- VecDeque / slices used by the replay queue ----
+pub assume_specification<T, A: core::alloc::Allocator>[ std::collections::VecDeque::<T, A>::is_empty ](d: &std::collections::VecDeque<T, A>) -> (r: bool)
+    ensures r == (d@.len() == 0);
+pub assume_specification<T, A: core::alloc::Allocator>[ std::collections::VecDeque::<T, A>::front ](d: &std::collections::VecDeque<T, A>) -> (r: Option<&T>)
+    ensures match r { Some(x) => d@.len() > 0 && *x == d@[0], None => d@.len() == 0 };
 pub assume_specification<T, A: core::alloc::Allocator>[ std::collections::VecDeque::<T, A>::back ](d: &std::collections::VecDeque<T, A>) -> (r: Option<&T>)
     ensures match r { Some(x) => d@.len() > 0 && *x == d@[d@.len() - 1], None => d@.len() == 0 };
 pub assume_specification<T: Clone>[ <[T] as std::borrow::ToOwned>::to_owned ](s: &[T]) -> (r: Vec<T>)
